@@ -589,9 +589,16 @@ def maybeSleepPinger (g : Gw) (d : UInt16) : Gw :=
 def handlePlainDisconnect (g : Gw) : Gw :=
   ((((g.mqttSend .disconnect).setSt .disconnected).snSend (.disconnect 0)).fail .clean)
 
-/-- DISCONNECT with a duration: the client goes to sleep -/
+/-- `snSendNow`: written to the client whatever its state -/
+def snSendNow (g : Gw) (p : Pkt) : Gw := g.emit (.sn (encode p))
+
+/-- a client that is asleep already repeats its DISCONNECT when the reply got lost: what has
+    been queued for it in the meantime is kept -/
+def clearBufferUnlessAsleep (g : Gw) : Gw := if g.st ≠ .asleep then g.clearBuffer else g
+
+/-- DISCONNECT with a duration: the client goes to sleep; the reply is never queued -/
 def handleSleep (g : Gw) (d : UInt16) : Gw :=
-  ((((g.maybeSleepPinger d).clearBuffer).snSend (.disconnect 0)).setSt .asleep)
+  ((((g.maybeSleepPinger d).clearBufferUnlessAsleep).snSendNow (.disconnect 0)).setSt .asleep)
 
 def handleDisconnect (g : Gw) (d : UInt16) : Gw :=
   if d = 0 then g.handlePlainDisconnect else g.handleSleep d
